@@ -116,7 +116,8 @@ def strtypes_family(chk, tier):
         toks = sorted(DS.TOKENS)
         extra = {"".join(DS.TOKENS[chk.rng.choice(toks)] for _ in range(3)) for _ in range(1200)}
         corpus = sorted(set(corpus) | extra)
-    corpus = sorted(set(corpus) | set(DS.MC_STR.values()) | {"", "1_000", " 12 ", "0x10", "1e309", "-0", "٣.٥", "TrUe", "2020-02-30", "24:00"})
+    corpus = sorted(set(corpus) | set(DS.MC_STR.values()) | {"", "1_000", " 12 ", "0x10", "1e309", "-0", "٣.٥", "TrUe", "2020-02-30", "24:00",
+                                                                  "12:" + "9" * 320, "1234567890123456789012:00", "9" * 25 + "-01-02"})
     configs = DS.registries_from_tlc(chk, 2 if quick else 3)
     chk.exhaustive_parts.append("MC_StrTypes: every registry reachable by <=%d register/disable operations; MC_StrGrammar: every string of <=%d tokens"
                                 % (2 if quick else 3, 2 if quick else 3))
